@@ -27,6 +27,7 @@ import Driver.Dwvw
 import Driver.Small1
 import Driver.Abs
 import Driver.Nms
+import Driver.Sites
 open Sf
 
 def lawOf (s : String) : Option G711.Law :=
@@ -99,4 +100,5 @@ def main (args : List String) : IO UInt32 := do
   | "small1" :: rest => Driver.Small1.cmd rest
   | "abs" :: rest => AbsDriver.cmd rest
   | "nms" :: rest => Driver.Nms.cmd rest
+  | "sites" :: _ => SitesDriver.cmd
   | _ => IO.eprintln "usage: sfmodel <g711|...> ..."; return 2
